@@ -234,10 +234,12 @@ func (t *Transpiler) transpileBinaryExpr(b *parser.BinaryExpr) (influxql.Node, e
 		return nil, errno.NewError(errno.UnableRightBinOp, err)
 	}
 	rDropMetric := t.dropMetric
+	t.dropMetric = rDropMetric || (!rDropMetric && lDropMetric)
+	// a comparison with the bool modifier drops the metric name (the assignment used to precede the
+	// line above, which overwrote it: `topk(1, m) > bool 2` kept __name__)
 	if b.ReturnBool {
 		t.dropMetric = true
 	}
-	t.dropMetric = rDropMetric || (!rDropMetric && lDropMetric)
 	switch {
 	case yieldsFloat(b.LHS) && yieldsFloat(b.RHS):
 		// Handle both sides return scalar value.
